@@ -18,6 +18,7 @@
 
 #include "statement_import.h"
 #include "exception_parse.h"
+#include "exception_runtime.h"
 #include "parse_expression.h"
 #include "parser.h"
 #include "context.h"
@@ -58,11 +59,22 @@ void IMPORTStatement::loadModule(Context& ctx)
   }
   else
   {
-    Value& val = _exp->value(ctx);
-    if (val.isNull())
-      throw ParseError(EXC_PARSE_INV_EXPRESSION);
-    if ((type_id = PluginManager::instance().importModuleByPath(*val.literal())) == 0)
-      throw ParseError(EXC_PARSE_IMPORT_FAILED_S, val.literal()->c_str());
+    /* the path is evaluated at compile time: a failure is a compile error */
+    std::string path;
+    try
+    {
+      Value& val = _exp->value(ctx);
+      if (val.isNull())
+        throw ParseError(EXC_PARSE_INV_EXPRESSION);
+      path.assign(*val.literal());
+    }
+    catch (RuntimeError& re)
+    {
+      ctx.purgeWorkingMemory();
+      throw ParseError(EXC_PARSE_OTHER_S, re.what());
+    }
+    if ((type_id = PluginManager::instance().importModuleByPath(path)) == 0)
+      throw ParseError(EXC_PARSE_IMPORT_FAILED_S, path.c_str());
   }
   const PLUGGED_MODULE& plug = PluginManager::instance().plugged(type_id);
   DBG(DBG_DEBUG, "%s: id=%d name=%s instance=%p dlhandle=%p\n", __FUNCTION__,
